@@ -27,7 +27,8 @@ let rec sresult_json (r : sresult) : json =
              ("values", JObj (SL.map (fun (f, v) -> (string_of_bytes (field_str f), value_json v)) vs));
              ("flags", of_list of_bool (flags t vs));
              ("class", JStr (cls_string (class_of r)));
-             ("row_type", of_n (row_type (class_of r))) ]
+             ("row_type", of_n (row_type (class_of r)));
+             ("is_script_hash", of_bool (is_script_hash t)) ]
   | SNoMatch -> JObj [("error", JStr "ValueError")]
   | SFuel -> JObj [("error", JStr "MODEL-OUT-OF-FUEL")]
 and value_json (v : value) : json =
